@@ -357,7 +357,10 @@ def exec_ruledb(R, ctx):
             got = db.is_verified(l)
             ctx.ev("ver", l, got)
             part_marked = any(cls(m) == cls(l) for m in verified_marks)
-            if got and not (cls(l) in pr or part_marked):
+            # (iterative packs mark everything derivable *given the start class*; when such a label
+            # later merges with the start class the mark says nothing checkable, so only recursive
+            # packs are judged here)
+            if got and not iterative and not (cls(l) in pr or part_marked):
                 raise Violation("verified-unsound", f"is_verified({l}) but its class neither has a verification rule nor survives pruning of the rules so far")
             if l in verified_marks and not got:
                 raise Violation("verified-lost", f"label {l} has a verification rule but is_verified is False")
